@@ -28,7 +28,9 @@ def _identity(draw):
     nmin = 3 if profile == 'paged' else 0
     ids = draw(st.lists(st.sampled_from(IDS) | st.sampled_from([0, 1, 2, 3, 6, 0x80, 0x81, 0xFF]), min_size=nmin, max_size=14, unique=True))
     objs = []
-    for i in sorted(ids):
+    if draw(st.booleans()):
+        ids = sorted(ids)      # otherwise keep the generated (arbitrary) population order
+    for i in ids:
         if profile == 'small':
             ln = draw(st.integers(0, 12))
         elif profile == 'paged':
